@@ -59,6 +59,11 @@ class UnionFind():
         item1 = self.find(item1)
         item2 = self.find(item2)
 
+        # Already in the same class: nothing to do (linking a root to
+        # itself would make find loop forever).
+        if item1 == item2:
+            return
+
         # Ensure the tree at item1 is larger or equal to tree at item2.
         if not force_first and self.size[item1] < self.size[item2]:
             item1, item2 = item2, item1
